@@ -189,6 +189,11 @@ class Case:
             w = np.zeros(shape)
             idx = rng.choice(m, max(1, m // 3), replace=False)
             w[idx] = rng.standard_normal((len(idx),) + shape[1:])
+        elif kind == "null_only":
+            # all the mass of the start sits on the all-zero group (a stale coefficient of a feature that vanished)
+            w = np.zeros(shape)
+            idx = self.groups[self.null_group] if getattr(self, "null_group", None) is not None else np.array([0])
+            w[idx] = rng.standard_normal((len(idx),) + shape[1:]) + 0.5
         else:
             raise KeyError(kind)
         w = self.make_feasible(w)
